@@ -32,6 +32,10 @@ void ev_loop_fork(struct ev_loop *l) { (void)l; }
 void ev_break(struct ev_loop *l, int h) { (void)l; (void)h; }
 int ev_run(struct ev_loop *l, int f) { (void)l; (void)f; return 0; }
 void ev_timer_start(struct ev_loop *l, ev_timer *w) { (void)l; w->active = 1; the_timer = w; }
+void ev_timer_stop(struct ev_loop *l, ev_timer *w) { (void)l; w->active = 0; if (the_timer == w) the_timer = NULL; }
+void ev_timer_again(struct ev_loop *l, ev_timer *w) { if (w->repeat > 0.) ev_timer_start(l, w); else ev_timer_stop(l, w); }
+void ev_signal_stop(struct ev_loop *l, ev_signal *w) { (void)l; w->active = 0; }
+ev_tstamp ev_stub_now(struct ev_loop *l) { return l->now; }
 void ev_io_start(struct ev_loop *l, ev_io *w) { (void)l; w->active = 1; }
 void ev_io_stop(struct ev_loop *l, ev_io *w) { (void)l; w->active = 0; }
 void ev_signal_start(struct ev_loop *l, ev_signal *w) { (void)l; w->active = 1; }
@@ -57,6 +61,7 @@ void ev_periodic_stop(struct ev_loop *l, ev_periodic *w)
 	size_t k = 0; for (size_t i = 0; i < npers; i++) if (pers[i] != w) pers[k++] = pers[i];
 	npers = k; w->active = 0;
 }
+void ev_periodic_again(struct ev_loop *l, ev_periodic *w) { ev_periodic_stop(l, w); ev_periodic_start(l, w); }
 void ev_child_start(struct ev_loop *l, ev_child *w) { (void)l; if (w->active) return; w->active = 1; chlds[nchlds++] = w; }
 void ev_child_stop(struct ev_loop *l, ev_child *w)
 {
@@ -424,6 +429,15 @@ int main(int argc, char *argv[])
 			for (size_t i = 0; i < nchlds; i++) if (!chlds[i]->pending) cand[nc++] = i;
 			if (nc) { ev_child *c = chlds[cand[(size_t)atoi(a1) % nc]]; c->rpid = c->pid; c->rstatus = 0; c->pending = 1; pend[npend].kind = PK_CHLD; pend[npend++].w = c;
 				fprintf(o, "{\"e\":\"Exit\",\"pid\":%d,\"watched\":true,\"now\":%.1f}\n", c->pid, the_loop.now - T0); }
+		}
+		else if (!strcmp(line, "XS") || !strcmp(line, "XC")) {
+			/* the k-th (modulo) child that is still being watched is stopped / continued (SIGSTOP, SIGCONT): libev reports
+			 * that to watchers started with the trace flag only, the job is alive all along */
+			size_t cand[MAXW], nc = 0;
+			for (size_t i = 0; i < nchlds; i++) if (!chlds[i]->pending) cand[nc++] = i;
+			if (nc) { ev_child *c = chlds[cand[(size_t)atoi(a1) % nc]];
+				if (c->flags) { c->rpid = c->pid; c->rstatus = line[1] == 'S' ? 0x137f : 0xffff; c->pending = 1; pend[npend].kind = PK_CHLD; pend[npend++].w = c; }
+				fprintf(o, "{\"e\":\"ChildEvent\",\"pid\":%d,\"kind\":\"%s\",\"traced\":%s}\n", c->pid, line[1] == 'S' ? "stop" : "cont", c->flags ? "true" : "false"); }
 		}
 		else if (!strcmp(line, "K")) { fputs("{\"e\":\"Chkpnt\"}\n", o); if (the_timer) the_timer->cb(&the_loop, the_timer, 0); }
 		else if (!strcmp(line, "F")) { sys_fault_at = sys_k + atol(a1); sys_mode = a2 ? a2[0] : 'c'; }
